@@ -18,36 +18,36 @@ Proof. rewrite Nat2Z.inj_succ. rewrite Z.pow_succ_r by lia. reflexivity. Qed.
 Lemma pow256_pos k : 0 < 256 ^ Z.of_nat k.
 Proof. apply Z.pow_pos_nonneg; lia. Qed.
 
-Lemma be_length n v : length (be n v) = n.
-Proof. induction n as [|k IH]; cbn [be length]; [reflexivity | rewrite IH; reflexivity]. Qed.
+Lemma be_length_s n v : length (be_spec n v) = n.
+Proof. induction n as [|k IH]; cbn [be_spec length]; [reflexivity | rewrite IH; reflexivity]. Qed.
 
-Lemma len_be n v : len (be n v) = Z.of_nat n.
-Proof. unfold len. rewrite be_length. reflexivity. Qed.
+Lemma len_be_s n v : len (be_spec n v) = Z.of_nat n.
+Proof. unfold len. rewrite be_length_s. reflexivity. Qed.
 
-Lemma be_bytes_ok n v : bytes_ok (be n v) = true.
+Lemma be_bytes_ok_s n v : bytes_ok (be_spec n v) = true.
 Proof.
-  induction n as [|k IH]; cbn [be bytes_ok forallb]; [reflexivity|].
-  fold (bytes_ok (be k v)). rewrite IH, andb_true_r. unfold byte_ok.
+  induction n as [|k IH]; cbn [be_spec bytes_ok forallb]; [reflexivity|].
+  fold (bytes_ok (be_spec k v)). rewrite IH, andb_true_r. unfold byte_ok.
   pose proof (Z.mod_pos_bound (v / 256 ^ Z.of_nat k) 256 ltac:(lia)). 
   apply andb_true_iff; split; [apply Z.leb_le | apply Z.ltb_lt]; lia.
 Qed.
 
-Lemma fold_unbe_be n : forall v acc,
-  fold_left (fun a b => a * 256 + b) (be n v) acc = acc * 256 ^ Z.of_nat n + v mod 256 ^ Z.of_nat n.
+Lemma fold_unbe_be_s n : forall v acc,
+  fold_left (fun a b => a * 256 + b) (be_spec n v) acc = acc * 256 ^ Z.of_nat n + v mod 256 ^ Z.of_nat n.
 Proof.
   induction n as [|k IH]; intros v acc.
-  - cbn [be fold_left]. change (256 ^ Z.of_nat 0) with 1. rewrite Z.mod_1_r. lia.
-  - cbn [be fold_left]. rewrite IH. rewrite pow256_succ.
+  - cbn [be_spec fold_left]. change (256 ^ Z.of_nat 0) with 1. rewrite Z.mod_1_r. lia.
+  - cbn [be_spec fold_left]. rewrite IH. rewrite pow256_succ.
     pose proof (pow256_pos k) as Hp. set (p := 256 ^ Z.of_nat k) in *.
     rewrite (Z.mul_comm 256 p). rewrite Z.rem_mul_r by lia.
     lia.
 Qed.
 
-Lemma unbe_be n v : unbe (be n v) = v mod 256 ^ Z.of_nat n.
-Proof. unfold unbe. rewrite fold_unbe_be. lia. Qed.
+Lemma unbe_be_s n v : unbe (be_spec n v) = v mod 256 ^ Z.of_nat n.
+Proof. unfold unbe. rewrite fold_unbe_be_s. lia. Qed.
 
-Lemma unbe_be_id n v : 0 <= v < 256 ^ Z.of_nat n -> unbe (be n v) = v.
-Proof. intros H. rewrite unbe_be. apply Z.mod_small. exact H. Qed.
+Lemma unbe_be_id_s n v : 0 <= v < 256 ^ Z.of_nat n -> unbe (be_spec n v) = v.
+Proof. intros H. rewrite unbe_be_s. apply Z.mod_small. exact H. Qed.
 
 Lemma fold_unbe_bound l : bytes_ok l = true -> forall acc, 0 <= acc ->
   0 <= fold_left (fun a b => a * 256 + b) l acc < (acc + 1) * 256 ^ len l.
@@ -87,10 +87,10 @@ Proof. unfold unbe. rewrite fold_unbe_app. rewrite fold_unbe_shift. reflexivity.
 Lemma unbe_cons x l : unbe (x :: l) = x * 256 ^ len l + unbe l.
 Proof. change (x :: l) with ([x] ++ l). rewrite unbe_app. unfold unbe at 1. cbn [fold_left]. lia. Qed.
 
-(** [be k] only depends on the value modulo 256^k *)
-Lemma be_drop_high m k : forall v w, Z.of_nat k <= m -> be k (w * 256 ^ m + v) = be k v.
+(** [be_spec k] only depends on the value modulo 256^k *)
+Lemma be_drop_high_s m k : forall v w, Z.of_nat k <= m -> be_spec k (w * 256 ^ m + v) = be_spec k v.
 Proof.
-  induction k as [|k IHk]; intros v w Hm; [reflexivity|]. cbn [be].
+  induction k as [|k IHk]; intros v w Hm; [reflexivity|]. cbn [be_spec].
   rewrite IHk by lia. f_equal.
   replace (256 ^ m) with (256 ^ (m - Z.of_nat k) * 256 ^ Z.of_nat k) by (rewrite <- Z.pow_add_r by lia; f_equal; lia).
   rewrite Z.mul_assoc. rewrite Z.div_add_l by (pose proof (pow256_pos k); lia).
@@ -100,26 +100,68 @@ Proof.
   rewrite Z.add_comm. rewrite Z.mul_comm. rewrite Z_mod_plus_full. reflexivity.
 Qed.
 
-Lemma be_mod k v : be k (v mod 256 ^ Z.of_nat k) = be k v.
+Lemma be_mod_s k v : be_spec k (v mod 256 ^ Z.of_nat k) = be_spec k v.
 Proof.
   pose proof (pow256_pos k) as Hp.
   rewrite (Z.div_mod v (256 ^ Z.of_nat k)) at 2 by lia.
-  rewrite (Z.mul_comm (256 ^ Z.of_nat k)). rewrite be_drop_high by lia. reflexivity.
+  rewrite (Z.mul_comm (256 ^ Z.of_nat k)). rewrite be_drop_high_s by lia. reflexivity.
 Qed.
 
-(** be is the inverse of unbe on byte strings of the right length *)
-Lemma be_unbe l : bytes_ok l = true -> be (length l) (unbe l) = l.
+(** be_spec is the inverse of unbe on byte strings of the right length *)
+Lemma be_unbe_s l : bytes_ok l = true -> be_spec (length l) (unbe l) = l.
 Proof.
   induction l as [|x l IH]; intros Hb; [reflexivity|].
   cbn [bytes_ok forallb] in Hb. apply andb_true_iff in Hb. destruct Hb as [Hx Hl].
   unfold byte_ok in Hx. apply andb_true_iff in Hx. destruct Hx as [H0 H1]. apply Z.leb_le in H0. apply Z.ltb_lt in H1.
-  cbn [length be]. rewrite unbe_cons. fold (len l).
+  cbn [length be_spec]. rewrite unbe_cons. fold (len l).
   pose proof (unbe_bound l Hl) as Hbd.
   assert (Hp : 0 < 256 ^ len l) by (apply Z.pow_pos_nonneg; [lia | apply len_nonneg]).
   f_equal.
   - rewrite Z.div_add_l by lia. rewrite (Z.div_small (unbe l)) by lia. rewrite Z.add_0_r. apply Z.mod_small; lia.
-  - rewrite be_drop_high by (unfold len; lia). apply IH. exact Hl.
+  - rewrite be_drop_high_s by (unfold len; lia). apply IH. exact Hl.
 Qed.
+
+
+(** the fast [be] equals its defining equation *)
+Lemma be_spec_snoc k : forall v, be_spec (S k) v = be_spec k (v / 256) ++ [v mod 256].
+Proof.
+  induction k as [|k IH]; intros v.
+  - cbn [be_spec app]. change (256 ^ Z.of_nat 0) with 1. rewrite Z.div_1_r. reflexivity.
+  - change (be_spec (S (S k)) v) with ((v / 256 ^ Z.of_nat (S k)) mod 256 :: be_spec (S k) v).
+    rewrite IH. change (be_spec (S k) (v / 256)) with (((v / 256) / 256 ^ Z.of_nat k) mod 256 :: be_spec k (v / 256)).
+    cbn [app]. f_equal. rewrite Z.div_div by (try lia; apply pow256_pos). rewrite pow256_succ. reflexivity.
+Qed.
+
+Lemma be_go_spec n : forall v acc, be_go n v acc = be_spec n v ++ acc.
+Proof.
+  induction n as [|k IH]; intros v acc; [reflexivity|].
+  cbn [be_go]. rewrite IH. rewrite be_spec_snoc. rewrite <- app_assoc. reflexivity.
+Qed.
+
+Lemma be_eq n v : be n v = be_spec n v.
+Proof. unfold be. rewrite be_go_spec. apply app_nil_r. Qed.
+
+Lemma be_S k v : be (S k) v = (v / 256 ^ Z.of_nat k) mod 256 :: be k v.
+Proof. rewrite !be_eq. reflexivity. Qed.
+Lemma be_O v : be 0 v = [].
+Proof. reflexivity. Qed.
+
+Lemma be_length n v : length (be n v) = n.
+Proof. rewrite be_eq. apply be_length_s. Qed.
+Lemma len_be n v : len (be n v) = Z.of_nat n.
+Proof. rewrite be_eq. apply len_be_s. Qed.
+Lemma be_bytes_ok n v : bytes_ok (be n v) = true.
+Proof. rewrite be_eq. apply be_bytes_ok_s. Qed.
+Lemma unbe_be n v : unbe (be n v) = v mod 256 ^ Z.of_nat n.
+Proof. rewrite be_eq. apply unbe_be_s. Qed.
+Lemma unbe_be_id n v : 0 <= v < 256 ^ Z.of_nat n -> unbe (be n v) = v.
+Proof. rewrite be_eq. apply unbe_be_id_s. Qed.
+Lemma be_drop_high m k : forall v w, Z.of_nat k <= m -> be k (w * 256 ^ m + v) = be k v.
+Proof. intros v w H. rewrite !be_eq. apply be_drop_high_s. exact H. Qed.
+Lemma be_mod k v : be k (v mod 256 ^ Z.of_nat k) = be k v.
+Proof. rewrite !be_eq. apply be_mod_s. Qed.
+Lemma be_unbe l : bytes_ok l = true -> be (length l) (unbe l) = l.
+Proof. intros H. rewrite be_eq. apply be_unbe_s. exact H. Qed.
 
 Lemma bytes_ok_app a b : bytes_ok (a ++ b) = bytes_ok a && bytes_ok b.
 Proof. unfold bytes_ok. apply forallb_app. Qed.
